@@ -21,7 +21,7 @@ through insert_for_record(.., &source) with the record the value was resolved fr
 paired with the matching cache_memory adjustment under the bucket lock and only cache.rs writes cache_memory.
 Not decided: on/off result equality over workloads; CLOCK eviction quality.
 """
-DECIDED = ["keyed API only from the store", "generation-match guards on hit / remove / overwrite", "invalidate on every replace/remove",
+DECIDED = ['every cache hit raises the reference bit the CLOCK sweep reads', "keyed API only from the store", "generation-match guards on hit / remove / overwrite", "invalidate on every replace/remove",
            "byte accounting pairing under the bucket lock",
            'expiry is tested before any value tier, the cache included (shared with C11.lazy)',
            'clear() sums and empties a bucket in one critical section',
@@ -95,7 +95,13 @@ def check_match(ctx):
             a1 = R.arg_expr(body, body.nodes[pe[0]], 1)
             ctx.check(a0.has_call("Weak::as_ptr") and a1.has_call("Arc::as_ptr"), inst, "PIN", body.path, "identity is Weak::as_ptr(cached) == Arc::as_ptr(expected)", body.where(pe[0]))
         # key equality precedes
-        st = ctx.sites(body, R.call("AtomicBool::store", "Atomic::store"), inst, exact=1)
+        # second chance: every hit - keyed or not - raises the entry's own reference bit, the bit the CLOCK sweep reads
+        st = [n for n in R.field_write("CacheEntry", "reference_bit", ops=["store"])(body)]
+        ctx.check(len(st) >= 1, inst, "anchor", body.path, "a hit stores to CacheEntry.reference_bit (found %d)" % len(st), None)
+        for x in st:
+            a = body.nodes[x].ev["args"][1]
+            ctx.check(a.get("k") == "const" and a.get("val") == 1, inst, "PIN", body.path, "a hit sets the reference bit (true)", body.where(x))
+        R.dom(ctx, inst, body, st, A.ok_nodes(body), "every hit (keyed or unkeyed) raises the reference bit of the entry it returns", a_desc="reference_bit.store(true)")
     # remove_entry / record_entry use the same identity inside their position closures
     for fn in ("ClockCache::remove_entry", "ClockCache::record_entry"):
         body = ctx.fn(fn, inst)
@@ -352,7 +358,7 @@ def check_sweep(ctx):
             steps.append((d, v))
     ctx.check(len(inits) == 1 and (tr.node_value(inits[0]).extra or {}).get("val") == 0, inst, "PIN", b.path, "each bucket is swept from its first entry", None)
     def on_ref(bb, n):
-        return R.recv_expr(bb, n).has_field(None, "reference_bit")
+        return R.recv_expr(bb, n).has_field("CacheEntry", "reference_bit")
     bits = R.call("Atomic::load", "AtomicBool::load", "Atomic::swap", "AtomicBool::swap").filter(on_ref, "reference bit read")(b)
     ctx.check(len(bits) == 1, inst, "anchor", b.path, "one read of the reference bit per entry (found %d)" % len(bits), None)
     kept = A.pred_edges(b, lambda e: e.k == "call" and e.nid in bits, "true")
